@@ -388,6 +388,13 @@ STANDINS = {
     'C10': [{'name': 'bounded_to_string', 'bin': 'bounded_to_string', 'extract': False,
              'assumed_contract': 'Convert::to_string (external_body): Ok((s,i)) <=> i is the first NUL at/after start and s is the UTF-8 decoding of the bytes in between; no panic for start <= len',
              'bound': 'all byte strings of length 0..6 over {00,61,C3,A9,FF} x all start offsets (131836 cases)'}],
+    'C11': [{'name': 'bounded_codec', 'bin': 'bounded_codec', 'extract': False,
+             'assumed_contract': 'serialize_data (external_body, to_be_bytes): bytes == 00 03 hi lo payload; std facts assumed by the round-trip lemma '
+                                 '(usize::to_string is decimal digits that parse back; to_lowercase fixes lower-case ASCII; concat; as_bytes)',
+             'bound': 'DATA: all 65536 block numbers x 40 payloads of length 0..3 over {00,01,FF} + 600- and 65464-byte payloads; ACK all u16; '
+                      'to_string on 0..100000 and 2^k-1,2^k,2^k+1; to_lowercase on all 2-char ASCII strings without upper case; '
+                      'RRQ/WRQ/OACK/ERROR from a grammar (10 strings incl. empty, non-ASCII, 517 bytes; 8 option values incl. usize::MAX; '
+                      'lists of 0..3 options) against an independent RFC encoder plus round trip (about 2.8 million cases)'}],
 }
 
 
